@@ -75,7 +75,7 @@ def compare(pid, case, mline, iline):
 
 FIXED_SEEN = []
 FIXED2_SEEN = []
-FIXED2_EXPECTED = "fixed sigconn M:x=22,r=27,seen=5,size=0,conn=0,after=1/0 C:x=32,r=27,size=0,conn=0 F:x=42,s=n=77,r=42,size=0 R:ref=1,cref=1,hideref=1,hidecref=1"
+FIXED2_EXPECTED = "fixed sigconn M:x=22,r=27,seen=5,size=0,conn=0,after=1/0 C:x=32,r=27,size=0,conn=0 F:x=42,s=n=77,r=42,size=0 R:ref=1,cref=1,hideref=1,hidecref=1 P:x=22,r=27,seen=5,bx=21,br=28,bseen=12,cx=32,cr=27 Q:pf=1,hide=1,bind=1"
 FIXED_EXPECTED = "fixed slotref A:outer_nonempty=1,inner_empty=1 B:inner_empty=1,outer_empty=1,copy_empty=0 C:inner_empty=1,outer_empty=1 D:outer2_empty=1"
 
 
@@ -276,6 +276,15 @@ def directed_cases(pid, start):
             out.append(C(0, ("bind", 0, leaf, bounds), True, [], []))
             out.append(C(0, ("bind", -1, leaf, bounds), True, ["r"], [11]))
             out.append(C(0, ("bind", 1, leaf, bounds), True, ["r"], [11]))
+    # tuples of 4, 5 and 6 elements (bound values, tracked objects): each position as the only tracked reference
+    for n in (4, 5, 6):
+        for pos in range(n):
+            bounds = [("r", 1) if j == pos else ("v", 40 + j) for j in range(n)]
+            out.append(C(0, ("bind", -1, leaf, bounds), True, [], []))
+            out.append(C(0, ("bind", 0, leaf, bounds), True, ["v"], [11]))
+        out.append(C(0, ("to", leaf, [0, 1, 2, 3, 0, 1][:n]), True, ["v"], [11]))
+        out.append(C(0, ("to", leaf, [3] * (n - 1) + [2]), True, ["v"], [11]))
+        out.append(C(0, ("to", leaf, [3] * (n - 2) + [1, 3]), True, ["v"], [11]))
     # a functor / a slot / a trackable-derived object bound by value is visited like any other bound value
     for kind in ("f", "s", "t"):
         out.append(C(0, ("bind", -1, leaf, [(kind, 2)]), True, [], []))
